@@ -177,6 +177,13 @@ def _r1(ck: Checker, prog: Program):
     if final is not None:
         final = final.replace(lambda e: e.is_Symbol and e.name.startswith("<") and e.name.endswith(".n_samples"), lambda e: L)
         final = final.replace(lambda e: e.is_Symbol and e.name.startswith("<") and e.name.endswith(".fs"), lambda e: fs)
+        # a name for the last window of the series (`last = windows[-1]`, bound once): what the loop variable is after the loop
+        last_names = [st.targets[0].id for st in own_nodes(f.node) if isinstance(st, ast.Assign) and len(st.targets) == 1 and isinstance(st.targets[0], ast.Name)
+                      and isinstance(st.value, ast.Subscript) and isinstance(st.value.value, ast.Name) and st.value.value.id in (series_name, data_param)
+                      and unparse(st.value.slice) == "-1"
+                      and sum(1 for x in own_nodes(f.node) if isinstance(x, ast.Name) and x.id == st.targets[0].id and isinstance(x.ctx, ast.Store)) == 1]
+        for nm_ in last_names:
+            final = final.xreplace({sp.Symbol(f"{nm_}.n_samples", real=True): L, sp.Symbol(f"{nm_}.fs", real=True): fs})
     ones = sp.Function("ones_like")
     mean = sp.Function("mean")
     cands = [mean(TAPER(ones(X)) ** 2) for X in (A, TAPER(A))] + [mean(TAPER(sp.Function("ones")(L)) ** 2)]
